@@ -167,9 +167,7 @@ func (x *Exec) staticCall(fr *Frame, ins ssa.Instruction, fn *ssa.Function, bind
 		}
 		// cannot inline: havoc everything the callee may touch
 		x.note("call to %s not inlined (depth/recursion): all modelled heap havoced, result arbitrary, panics inside not checked", shortFn(fn.String()))
-		for name := range st.heap {
-			x.havocComp(st, name)
-		}
+		x.havocAll(st)
 		x.bumpAlloc(st)
 		return x.havocResult(st, "call_"+fn.Name(), fn.Signature.Results())
 	}
@@ -242,6 +240,10 @@ func (x *Exec) havocCall(fr *Frame, hc *HavocCall, args []Value, c *ssa.CallComm
 		h := x.comp(st, m.comp, x.compSort[m.comp])
 		_, rowSort, _ := h.sort.arrParts()
 		st.heap[m.comp] = x.w.ts.Store(h, m.rowOf, x.w.Fresh("row", rowSort))
+	}
+	if x.pendingAll {
+		x.havocAll(st)
+		x.pendingAll = false
 	}
 	x.pendingModifies, x.pendingModComps, x.pendingRows = nil, nil, nil
 	x.bumpAlloc(st)
@@ -353,6 +355,13 @@ func (x *Exec) intrinsic(fr *Frame, ins ssa.Instruction, fn *ssa.Function, args 
 			x.declaredModifies = append(x.declaredModifies, modEntry{addr: a})
 		}
 		return nil
+	case "ModifiesAll":
+		if x.useMode > 0 {
+			x.pendingAll = true
+		} else {
+			x.declaredAll = true
+		}
+		return nil
 	case "ModifiesElems":
 		// whole backing row of a slice
 		s := args[0].(*Term)
@@ -374,6 +383,10 @@ func (x *Exec) intrinsic(fr *Frame, ins ssa.Instruction, fn *ssa.Function, args 
 		r := x.allocRef(st, "snap")
 		st.heap[n] = ts.Store(h, r, ts.Select(h, x.w.sArr(s)))
 		return x.w.mkSlice(r, x.w.sOff(s), x.w.sLen(s), x.w.sCap(s))
+	case "Disjoint":
+		// the two slices do not share a backing array
+		a, b := args[0].(*Term), args[1].(*Term)
+		return ts.Or(ts.Eq(x.w.sArr(a), ts.IntLit(0)), ts.Eq(x.w.sArr(b), ts.IntLit(0)), ts.Not(ts.Eq(x.w.sArr(a), x.w.sArr(b))))
 	case "Old":
 		return args[0]
 	case "Implies":
@@ -777,6 +790,9 @@ func (x *Exec) dispatch(fr *Frame, ins ssa.Instruction, c *ssa.CallCommon, recv 
 // modifies clause is unchanged (per heap component; skolemised reference).
 func (x *Exec) frameCheck(pre, post *State, ins ssa.Instruction) {
 	ts := x.w.ts
+	if x.declaredAll {
+		return
+	}
 	names := map[string]bool{}
 	for n := range post.heap {
 		names[n] = true
